@@ -181,12 +181,19 @@ def fill (sc : Sc) (cl : Clip) (x y : Array Nat) (rg : Array (Nat × Nat)) : Fil
         best_i_score := s_score
         ti := tS.getD ((i - 1) * cols + j) .start
       if j = n then
-        let clip_score := Sn.getD (i - 1) MIN + go + ge
+        -- gap_open_after_yclip(i - 1, n): the clipped path of `Sn[i-1]` ends with an insertion ⇒ same gap, no gap_open
+        let go_y := if tS.getD ((i - 1) * cols + (n - Ly.getD (i - 1) 0)) .start = .ins then 0 else go
+        let clip_score := Sn.getD (i - 1) MIN + go_y + ge
         if clip_score > best_i_score then
           best_i_score := clip_score
           ti := .ysuf
       let d_score := D.getD (prev * rows + i) MIN + ge
-      let s_score := S.getD (prev * rows + i) MIN + go + ge
+      -- gap_open_after_xclip(m, j - 1): row m of the previous column is a suffix clip (x) of a path ending with a deletion
+      let go_x := if i = m then
+          (if tS.getD (m * cols + (j - 1)) .start = .xsuf ∧
+              tS.getD ((m - Lx.getD (j - 1) 0) * cols + (j - 1)) .start = .del then 0 else go)
+        else go
+      let s_score := S.getD (prev * rows + i) MIN + go_x + ge
       let mut best_d_score : Int := 0
       if d_score > s_score then
         best_d_score := d_score
@@ -259,7 +266,10 @@ def fill (sc : Sc) (cl : Clip) (x y : Array Nat) (rg : Array (Nat × Nat)) : Fil
       tS := tS.setIfInBounds (m * cols + j) .xsuf
   -- ---------------------------------------------------------------- recompute the last column of I
   for i in rng (max 1 (rgS n)) (rgE n) do
-    let s_score := S.getD (curr * rows + (i - 1)) MIN + go + ge
+    let go_y := if tS.getD ((i - 1) * cols + j) .start = .ysuf then
+        (if tS.getD ((i - 1) * cols + (n - Ly.getD (i - 1) 0)) .start = .ins then 0 else go)
+      else go
+    let s_score := S.getD (curr * rows + (i - 1)) MIN + go_y + ge
     if s_score > I.getD (curr * rows + i) MIN then
       I := I.setIfInBounds (curr * rows + i) s_score
       let s_bit := tS.getD ((i - 1) * cols + j) .start
